@@ -42,7 +42,10 @@
 //   - a *value* of abstract type (local, result of an opaque call, parameter
 //     that is compared with nil) is modelled by what the code can observe of
 //     it: `AbsPtr` (true = non-nil) for pointers, interfaces, maps, slices, …,
-//     `Unit` otherwise; `&T{…}` of abstract type is non-nil and, in trace mode,
+//     `Unit` otherwise (also as a function result); in trace mode a re-slicing
+//     `a[i:j]` is an opaque value preceded by the entry ("slice", [text with
+//     bounds]) and `*p = v` through an abstract pointer is an effect like a
+//     field assignment; `&T{…}` of abstract type is non-nil and, in trace mode,
 //     the entry ("new T", ["K=" ++ value, …]) (nested literals flattened to
 //     "K.L=…", values of scalar type rendered, "_" otherwise); an assignment to a
 //     field of an abstract object (`resp.Compress = true`) is an effect and is
@@ -528,6 +531,9 @@ func implementsError(t types.Type) bool {
 // exprAs translates e for a context of type to (implicit conversion of a
 // concrete error value to the error interface).
 func (c *fctx) exprAs(e ast.Expr, to types.Type) ex {
+	if id, ok := e.(*ast.Ident); ok && id.Name == "nil" && to != nil && strings.HasPrefix(c.t.leanType(to), "(List") {
+		return ex{code: "[]"} // nil slice
+	}
 	if to != nil && isError(to) {
 		if id, ok := e.(*ast.Ident); ok && id.Name == "nil" {
 			return ex{code: "none"}
@@ -666,6 +672,28 @@ func (c *fctx) expr(e ast.Expr) ex {
 			return ex{code: r.code, partial: true}
 		}
 		return c.opaqueValue(e)
+	}
+	if se, ok := e.(*ast.SliceExpr); ok && c.trace && !isString(c.typeOf(e)) {
+		// re-slicing (capacity) is beyond the subset: an opaque value; a call
+		// operand is evaluated for the trace, then ("slice", [text with bounds])
+		pre := ""
+		if _, isCall := se.X.(*ast.CallExpr); isCall {
+			_, calls := traceSplit(c.expr(se.X).code)
+			for _, m := range calls {
+				pre += "«call:" + m + "»"
+			}
+		}
+		if c.opaqueNodes == nil {
+			c.opaqueNodes = map[ast.Expr]string{}
+		}
+		name, ok := c.opaqueNodes[e]
+		if !ok {
+			c.nOpaque++
+			name = fmt.Sprintf("e%d_slice", c.nOpaque)
+			c.opaque = append(c.opaque, fmt.Sprintf("(%s : %s)", name, c.t.valType(c.typeOf(e))))
+			c.opaqueNodes[e] = name
+		}
+		return ex{code: pre + "«call:(\"slice\", [" + c.traceArg(se) + "])»" + name}
 	}
 	fail("expression %s (%T)", c.show(e), e)
 	return ex{}
@@ -1724,6 +1752,9 @@ func (c *fctx) assign(lhs ast.Expr, e ex, rest []ast.Stmt, _ ast.Expr) string {
 // assignCode emits `lhs := code` followed by k().
 // abstractTarget reports whether lhs is a field (path) of an abstract object.
 func (c *fctx) abstractTarget(lhs ast.Expr) bool {
+	if st, ok := lhs.(*ast.StarExpr); ok {
+		return c.t.valType(c.typeOf(st.X)) == "AbsPtr" // *p = v through an abstract pointer
+	}
 	se, ok := lhs.(*ast.SelectorExpr)
 	if !ok {
 		return false
@@ -1913,6 +1944,9 @@ func (t *translator) translate(sp TrFunc) (fo *funcOut) {
 			c.named = true
 		}
 		lt := t.leanType(v.Type())
+		if lt == "" && t.valType(v.Type()) == "AbsPtr" {
+			lt = "AbsPtr"
+		}
 		if lt == "" {
 			fail("result type %s", v.Type())
 		}
@@ -1924,7 +1958,7 @@ func (t *translator) translate(sp TrFunc) (fo *funcOut) {
 	pre := ""
 	if c.named {
 		for _, v := range c.results {
-			pre += fmt.Sprintf("let %s : %s := %s\n", leanIdent(v.Name()), t.leanType(v.Type()), c.zero(v.Type()))
+			pre += fmt.Sprintf("let %s : %s := %s\n", leanIdent(v.Name()), t.valType(v.Type()), c.zero(v.Type()))
 		}
 	}
 	if c.trace {
